@@ -293,6 +293,22 @@ class Body:
                     self.fail('`.%s` on values of type %r' % (name, ty))
                 op = '+' if name == 'wrapping_add' else '-'
                 return ('%s %s %s' % (par(a, P_ADD), op, par(b, P_ADD + 1)), P_ADD, ty)
+            if name in ('wrapping_shl', 'wrapping_shr') and len(args) == 1:
+                # the shift amount (a u32) is reduced modulo the width of the receiver
+                if a[2][0] != 'bv':
+                    self.fail('`.%s` on a value of type %r' % (name, a[2]))
+                n = self.ex(args[0], env)
+                if n[2][0] == 'lit':
+                    if n[2][1] < 0:
+                        self.fail('`.%s` by a negative literal' % name)
+                elif n[2] != ('nat',):
+                    self.fail('`.%s` by a value of type %r' % (name, n[2]))
+                amt = '(%s %% %s)' % (par((n[0], n[1]), P_MUL + 1), self.wtxt(a[2][2]))
+                if name == 'wrapping_shl':
+                    return ('%s <<< %s' % (par(a, P_SHIFT), amt), P_SHIFT, a[2])
+                if a[2][1]:
+                    return ('%s.sshiftRight %s' % (par(a, P_ATOM), amt), P_APP, a[2])
+                return ('%s >>> %s' % (par(a, P_SHIFT), amt), P_SHIFT, a[2])
             if name == 'wrapping_neg' and not args:
                 if a[2][0] != 'bv':
                     self.fail('`.wrapping_neg` on a value of type %r' % (a[2],))
